@@ -544,6 +544,9 @@ func init() {
 			func(b *Bounds) { b.Unwind = 20; b.Preempt = 1; b.Race = true })
 		c.Canary = "c17.par.canary"
 		js = append(js, c)
+		for _, n := range []int{2, 4} {
+			js = append(js, mk(sprintf("c17.striped.state.stripes%d", n), lossyPkg, "ZZ_C17_StripedState", map[string]int{"stripes": n}, func(b *Bounds) { b.Unwind = 40; b.Procs = 1 }))
+		}
 		js = append(js, mk("c17.striped.seq", lossyPkg, "ZZ_C17_StripedSeq", map[string]int{"maxlen": 4, "adds": 4}, func(b *Bounds) { b.Unwind = 20; b.Procs = 1 }))
 		for _, p := range []int{0, 1} {
 			js = append(js, mk(sprintf("c17.striped.par.pre%d", p), lossyPkg, "ZZ_C17_StripedPar", map[string]int{"maxlen": 4, "pre": p},
@@ -646,6 +649,12 @@ func init() {
 			js = append(js, mk(sprintf("c08.singleflight.callers%d.pre%d", n, p), rootPkg, "ZZ_C08_SingleFlight", map[string]int{"callers": n, "canary": 0},
 				func(b *Bounds) { b.Unwind = 60; b.Preempt = p; b.Race = true; b.MaxPaths = 6000000; b.MaxWallS = 2400 }))
 		}
+		mp := 1
+		if tier == "thorough" {
+			mp = 2
+		}
+		js = append(js, mk(sprintf("c08.mixed.get_vs_bulkget.pre%d", mp), rootPkg, "ZZ_C08_Mixed", nil,
+			func(b *Bounds) { b.Unwind = 60; b.Preempt = mp; b.Race = true; b.MapOrders = 2; b.MaxPaths = 8000000; b.MaxWallS = 3000 }))
 		c := mk("c08.canary", rootPkg, "ZZ_C08_SingleFlight", map[string]int{"callers": 2, "canary": 1}, func(b *Bounds) { b.Unwind = 60; b.Preempt = 0; b.Race = true })
 		c.Canary = "c08.canary"
 		return append(js, c)
